@@ -47,6 +47,10 @@ def remap_curie_prefixes(converter: Converter, remapping: Mapping[str, str]) -> 
     """
     ordering = _order_curie_remapping(converter, remapping)
     intersection = set(remapping).intersection(remapping.values())
+    # work on copies so the records of the given converter are left untouched
+    converter = Converter(
+        [r.model_copy(deep=True) for r in converter.records], delimiter=converter.delimiter
+    )
     records = {r.prefix: r for r in converter.records}
 
     modified_records = []
@@ -103,6 +107,7 @@ def remap_uri_prefixes(converter: Converter, remapping: Mapping[str, str]) -> Co
 
     records = []
     for record in converter.records:
+        record = record.model_copy(deep=True)
         new_uri_prefix = _get_uri_preferred_or_synonym(record, remapping)
         if new_uri_prefix is None:
             pass  # nothing to upgrade
@@ -134,6 +139,7 @@ def rewire(converter: Converter, rewiring: Mapping[str, str]) -> Converter:
     """
     records = []
     for record in converter.records:
+        record = record.model_copy(deep=True)
         new_uri_prefix = _get_curie_preferred_or_synonym(record, rewiring)
         if new_uri_prefix is None:
             pass  # nothing to upgrade
